@@ -169,16 +169,18 @@ def run_hyp(pid, part, n, seed_value, stats, known, found):
     import hypothesis
     from hypothesis import given, seed
     excluded = set(known)
+    # VERIF_TARGET=1: Hypothesis' targeted phase climbs the check's "distance to violation" (calibration runs)
+    use_target = part.use_target or bool(os.environ.get("VERIF_TARGET"))
     for _round in range(MAX_ROUNDS):
         last = {}
 
         @seed(seed_value)
-        @_settings(n, use_target=part.use_target)
+        @_settings(n, use_target=use_target)
         @given(part.strategy)
         def body(case):
             res = safe_check(pid, part, case)
             stats.record(part, case, res)
-            if res.target is not None and part.use_target:
+            if res.target is not None and use_target:
                 try:
                     hypothesis.target(float(res.target))
                 except Exception:
